@@ -16,7 +16,7 @@ def run(ctx):
                 "every side, central and upwind; observed order >= 1.5 (central) / 0.75 (upwind); every (class, scheme, bc, grading) is a distinct case")
     ctx.prove("C02")
     from suites import symsuite
-    run_suites(ctx, ["symbolic"], runner=symsuite.run_suite, relevant=symsuite.relevant_for(['diffusion', 'central', 'divergence', 'gradient', 'linmean', 'linsource', 'constsource', 'transientM', 'transientR', 'bcM', 'bcR', 'ghosts', 'upwind']))
+    run_suites(ctx, ["symbolic"], runner=symsuite.run_suite, relevant=symsuite.relevant_for(['diffusion', 'central', 'divergence', 'gradient', 'linmean', 'linsource', 'constsource', 'transientM', 'transientR', 'bcM', 'bcR', 'ghosts', 'upwind', 'harmmean', 'solveL', 'solveR']))
     run_suites(ctx, ["mesh"], runner=meshsuite.run_suite)
     run_suites(ctx, ["diffusion", "conv_central", "conv_upwind", "divergence", "gradient", "means"], relevant=REL)
     run_suites(ctx, ["bc_ghost", "bc_rows"], runner=bcsuite.run_suite)
